@@ -1,6 +1,11 @@
 import Ivg.Model.Decoder
 import Ivg.Model.Arc
-import Ivg.Gen.Tie
+import Ivg.Gen.Tie.EncoderFields
+import Ivg.Gen.Tie.Globals
+import Ivg.Gen.Tie.GoStmts
+import Ivg.Gen.Tie.GradientFields
+import Ivg.Gen.Tie.ParamWrites
+import Ivg.Gen.Tie.RendererFields
 import Ivg.Obligations
 /-!
 # C18 — independent decodes, renders and encodes are safe to run concurrently (PARTIAL)
